@@ -49,4 +49,3 @@ func (c *Ctx) runConstDiv(rule string, pkgs []*packages.Package) {
 		}
 	}
 }
-
